@@ -32,3 +32,6 @@ def classify(line, impl):
 
 def in_known_class(cls, line, impl):
     return line.startswith("DLEN") and _d.in_known_class(cls, line, impl)
+
+def oracle(line, impl):
+    return _d.oracle(line, impl) if line.startswith("DLEN") else None
